@@ -155,7 +155,23 @@ impl<'ast> syn::visit::Visit<'ast> for CallFinder {
 /// resolve a called name to a registered function.
 /// `ty`: the path segment before the name (a type for associated functions / `?` for a method call)
 pub fn resolve_fn(idx: &Index, reg: &Registry, cur: &FnEntry, ty: Option<&str>, name: &str, lenient: bool) -> Option<usize> {
-    let cands: Vec<usize> = idx.fn_by_name.get(name)?.iter().copied().filter(|i| reg.fns.contains_key(i)).collect();
+    resolve_fn_q(idx, reg, cur, ty, name, lenient, &[])
+}
+
+/// `quals`: the path segments before the name (module qualifiers); each one that is not a crate/self
+/// keyword has to occur in the candidate's own path
+pub fn resolve_fn_q(idx: &Index, reg: &Registry, cur: &FnEntry, ty: Option<&str>, name: &str, lenient: bool, quals: &[String]) -> Option<usize> {
+    let cands: Vec<usize> = idx
+        .fn_by_name
+        .get(name)?
+        .iter()
+        .copied()
+        .filter(|i| reg.fns.contains_key(i))
+        .filter(|i| {
+            let segs: Vec<&str> = idx.fns[*i].path.split("::").collect();
+            quals.iter().all(|q| matches!(q.as_str(), "crate" | "self" | "super" | "Self" | "konst" | "konst_kernel" | "__" | "core" | "std") || segs.contains(&q.as_str()))
+        })
+        .collect();
     if cands.is_empty() {
         return None;
     }
@@ -270,6 +286,8 @@ pub struct Tr<'a> {
     mut_ref_params: Vec<String>,
     /// `let p = s.as_ptr();` — p stands for (slice term, slice type)
     ptr_alias: HashMap<String, (String, Ty)>,
+    /// generic parameters bounded by `Pattern` / `BytesPattern`: modelled as the pattern's bytes
+    pattern_generics: Vec<String>,
 }
 
 fn ind(lines: Vec<String>, n: usize) -> Vec<String> {
@@ -367,7 +385,9 @@ impl<'a> Tr<'a> {
                     },
                     "ManuallyDrop" | "MaybeUninit" if targs.len() == 1 => self.conv_ty(targs[0]),
                     _ => {
-                        if self.generics.contains(&name) {
+                        if self.pattern_generics.contains(&name) {
+                            Ty::Slice(Box::new(Ty::Int(IntTy::U8)))
+                        } else if self.generics.contains(&name) {
                             Ty::Param(name)
                         } else if self.reg.structs.contains_key(&name) || self.reg.enums.contains_key(&name) {
                             Ty::Adt(name)
